@@ -5,6 +5,7 @@ verus! {
 //@include lib/prelude.rs
 //@include lib/keys.rs
 //@include lib/specs_store.rs
+//@include lib/bitmap_select.rs
 
 // ---- stand-ins for page_size / nohash / raw pointers (addresses are uninterpreted) -----------------------------
 pub mod page_size {
